@@ -213,10 +213,14 @@ pub fn gen_tree(rng: &mut Rng, opts: &TreeOpts) -> TreeSpec {
             }
         }
     }
-    let mut tree = TreeSpec { root, entries, mtime_mode: if rng.chance(1, 5) { rng.range(1, 6) as u8 } else { 0 } };
+    let mut tree = TreeSpec { root, entries, mtime_mode: if rng.chance(1, 5) { rng.range(1, 6) as u8 } else { 0 }, meta_mode: 0 };
     // half of the trees also hold what real deployments hold (see gen/real.rs)
     if rng.chance(1, 2) {
         super::real::add_realism(rng, &mut tree);
+    }
+    // a quarter of the trees with the modes and link counts deployments have
+    if rng.chance(1, 4) {
+        tree.meta_mode = rng.range(1, 3) as u8;
     }
     tree
 }
@@ -842,7 +846,7 @@ pub fn small_tree(nonce: u64) -> TreeSpec {
     };
     let lit = |name: &str, b: &str| Entry { path: format!("root/{}", name), kind: EntryKind::File(Content::Literal(b.into())) };
     // (a sixth of the nonces give the tree odd modification times: before 1970, at the epoch, after 2038)
-    TreeSpec { root, mtime_mode: if nonce % 6 == 5 { (1 + nonce % 5) as u8 } else { 0 }, entries: vec![f("probe.txt", 0, 64), f("file.txt", 1, 300), f("page.html", 2, 500), f("d/index.html", 3, 200), f("big.bin", 4, 20000), lit("empty.txt", ""), lit("one.txt", "1"), lit("file.txt.gz", "GZ-not really gzip"), lit("page.html.gz", "GZ-not really gzip either"), lit("big.bin.br", "brotli?")] }
+    TreeSpec { root, mtime_mode: if nonce % 6 == 5 { (1 + nonce % 5) as u8 } else { 0 }, meta_mode: if nonce % 5 == 3 { (1 + nonce % 3) as u8 } else { 0 }, entries: vec![f("probe.txt", 0, 64), f("file.txt", 1, 300), f("page.html", 2, 500), f("d/index.html", 3, 200), f("big.bin", 4, 20000), lit("empty.txt", ""), lit("one.txt", "1"), lit("file.txt.gz", "GZ-not really gzip"), lit("page.html.gz", "GZ-not really gzip either"), lit("big.bin.br", "brotli?")] }
 }
 
 pub fn probe_request() -> Vec<u8> {
